@@ -1,0 +1,18 @@
+//go:build verif
+
+package parser
+
+import (
+	"github.com/DDP-Projekt/Kompilierer/src/ast"
+	"github.com/DDP-Projekt/Kompilierer/src/token"
+)
+
+// Exports for the verification harness (build tag verif only).
+// They expose the key predicates of the alias trie and the alias ranking
+// so that they can be driven directly; no behaviour is changed.
+
+func VerifTokenEqual(t1, t2 *token.Token) bool { return tokenEqual(t1, t2) }
+
+func VerifTokenLess(t1, t2 *token.Token) bool { return tokenLess(t1, t2) }
+
+func VerifSortAliases(matchedAliases []ast.Alias) { sortAliases(matchedAliases) }
